@@ -42,6 +42,10 @@ func x1c17Entries(t string) map[int]int {
 
 func (r *x1c17) Exec(op []string) string {
 	switch op[0] {
+	case "dedup", "reverse", "zero", "select":
+		r.noteLen(op[0])
+	}
+	switch op[0] {
 	case "dedup":
 		n, runs, maxRun, cur := len(r.vs), 0, 0, 0
 		for i, v := range r.vs {
@@ -69,6 +73,8 @@ func (r *x1c17) Exec(op []string) string {
 		if maxRun >= 3 {
 			r.st.Note("dedup-run>=3")
 		}
+		lbNote(r.st, "dedup-longest-run", maxRun)
+		lbNote(r.st, "dedup-runs", runs)
 		if cap(r.vs) > n && runs < n {
 			r.st.Note("dedup-spare-cap(result-keeps-cap)")
 		}
@@ -131,11 +137,13 @@ func (r *x1c17) Exec(op []string) string {
 			default:
 				r.st.Note("select-some")
 			}
+			lbNote(r.st, "select-yielded", len(out))
 			return fmt.Sprintf("y=%s visited=%d", fmtInts(out), visited)
 		})
 
 	case "mapkeys":
 		m := x1c17Entries(op[1])
+		lbNote(r.st, "mapkeys-entries", len(m))
 		return r.call(func() string {
 			keys := slice.MapKeys(m)
 			if keys == nil {
@@ -178,6 +186,8 @@ func (r *x1c17) Exec(op []string) string {
 			default:
 				r.st.Note("matching-some")
 			}
+			lbNote(r.st, "matching-entries", len(m))
+			lbNote(r.st, "matching-yielded", len(out))
 			return fmt.Sprintf("y=%s seen=%s", fmtInts(out), fmtInts(seen))
 		})
 	}
@@ -230,6 +240,7 @@ func genX1Dedup(g *G) {
 		}
 		g.Case(ops)
 	}
+	genX1DedupLarge(g)
 }
 
 func x1c17EntriesTok(g *G, n, keyRange int) string {
@@ -312,6 +323,7 @@ func genX1Misc(g *G) {
 			fmt.Sprintf("matching %d %d %s", g.R.Uint32()&0xff, g.Intn(n+2), es),
 			fmt.Sprintf("matching 255 0 %s", es)})
 	}
+	genX1MiscLarge(g)
 }
 
 // ---- C17.value ----
@@ -347,6 +359,12 @@ func x1valMaybe(m value.Maybe[int], o int) string {
 }
 
 func (r *x1val) Exec(op []string) string {
+	for _, t := range op[1:] {
+		if v, err := strconv.Atoi(t); err == nil && (v >= 1<<31 || v < -(1<<31)) {
+			r.st.Note("value-int-beyond-32-bits")
+			break
+		}
+	}
 	switch op[0] {
 	case "reset":
 		return "ok"
@@ -445,6 +463,7 @@ func genX1Value(g *G) {
 		}
 		g.Case(ops)
 	}
+	genX1ValueLarge(g)
 }
 
 func init() {
